@@ -79,16 +79,21 @@ Definition mix_features (m3 : list (list (list bool))) (x xp : list (list (list 
   map3 (map3 (map3 mix1)) m3 x xp.
 
 (* F.one_hot(y, num_classes): RuntimeError when a class value is out of range *)
+Definition onehot_row (c : nat) (y : nat) : list Q := map (fun k => bq (k =? y)%nat) (seq 0 c).
 Definition one_hot (c : nat) (y : nat) : option (list Q) :=
-  if (y <? c)%nat then Some (map (fun k => bq (k =? y)%nat) (seq 0 c)) else None.
+  if (y <? c)%nat then Some (onehot_row c y) else None.
 
 (* lam * a + (1 - lam) * b *)
 Definition cvx (lam a b : Q) : Q := lam * a + (1 - lam) * b.
 
+(* the values the scalar branch mixes: a float target as is, an index target converted by type promotion *)
+Definition scalar_values (y : ytensor) : list Q :=
+  match y with YVal ys => ys | YIdx ys => map (fun n => inject_Z (Z.of_nat n)) ys end.
+
 Definition mix_targets (nc : nat) (y : ytensor) (pm : list nat) (lams : list Q) : option ymixed :=
   if (nc =? 1)%nat then
     (* regression / binary: lam.squeeze(1) * y + (1 - lam) * y[shuffled_idx] *)
-    let ys := match y with YVal ys => ys | YIdx ys => map (fun n => inject_Z (Z.of_nat n)) ys end in
+    let ys := scalar_values y in
     ysh <- tgather ys pm ;;
     if (length lams =? length ys)%nat then Some (YMScalar (map3 cvx lams ys ysh)) else None
   else
@@ -103,6 +108,24 @@ Definition mix_targets (nc : nat) (y : ytensor) (pm : list nat) (lams : list Q) 
         else None
     end.
 
+(* the if / elif / else block: (mask broadcast to x's shape, lam per row) *)
+Definition mask_and_lam (mt : mixup_type) (mi_scores : option (list Q)) (dr : draws) (b f d : nat)
+  : option (list (list (list bool)) * list Q) :=
+  match mt with
+  | MixFeature =>
+      mi <- mi_scores ;;                              (* assert mi_scores is not None *)
+      if negb (shape2 b f (unif dr) && (length mi =? f)%nat) then None else
+      if Qle_bool (qsum mi) 0 then None else          (* division by a zero sum: nan, outside the property *)
+      let m := draw_mask (rates dr) (unif dr) in
+      Some (mask3_feature d m, map (lam_feature mi) m)
+  | MixHidden =>
+      if negb (shape2 b d (unif dr)) then None else
+      let m := draw_mask (rates dr) (unif dr) in
+      Some (mask3_hidden f m, rates dr)               (* lam = shuffle_rates *)
+  | MixNone =>
+      Some (mask3_ones b f d, map (fun _ => 1) (rates dr))   (* ones_like(x), ones_like(shuffle_rates) *)
+  end.
+
 Definition feature_mixup (x : list (list (list Z))) (y : ytensor) (num_classes : nat)
            (mt : mixup_type) (mi_scores : option (list Q)) (dr : draws)
   : option (list (list (list Z)) * ymixed) :=
@@ -112,23 +135,38 @@ Definition feature_mixup (x : list (list (list Z))) (y : ytensor) (num_classes :
   (* the draws have the shapes the code samples them with *)
   if negb ((length (rates dr) =? b)%nat && (length (perm dr) =? b)%nat) then None else
   xp <- tgather x (perm dr) ;;                              (* x[shuffled_idx] *)
-  ml <- match mt with
-        | MixFeature =>
-            mi <- mi_scores ;;                              (* assert mi_scores is not None *)
-            if negb (shape2 b f (unif dr) && (length mi =? f)%nat) then None else
-            if Qle_bool (qsum mi) 0 then None else          (* division by a zero sum: nan, outside the property *)
-            let m := draw_mask (rates dr) (unif dr) in
-            Some (mask3_feature d m, map (lam_feature mi) m)
-        | MixHidden =>
-            if negb (shape2 b d (unif dr)) then None else
-            let m := draw_mask (rates dr) (unif dr) in
-            Some (mask3_hidden f m, rates dr)               (* lam = shuffle_rates *)
-        | MixNone =>
-            Some (mask3_ones b f d, map (fun _ => 1) (rates dr))   (* ones_like(shuffle_rates) *)
-        end ;;
-  let '(m3, lams) := ml in
-  ym <- mix_targets num_classes y (perm dr) lams ;;
-  Some (mix_features m3 x xp, ym).
+  ml <- mask_and_lam mt mi_scores dr b f d ;;
+  ym <- mix_targets num_classes y (perm dr) (snd ml) ;;
+  Some (mix_features (fst ml) x xp, ym).
+
+(* entry (i, j, k) of a rank-3 tensor / (i, j) of a matrix; None = out of range *)
+Definition ent {A} (x : list (list (list A))) (i j k : nat) : option A :=
+  r <- nth_error x i ;; c <- nth_error r j ;; nth_error c k.
+Definition ent2 {A} (m : list (list A)) (i j : nat) : option A :=
+  r <- nth_error m i ;; nth_error r j.
+
+(* the mask entry that decides position (i, j, k): per (row, column) in feature mode, per (row, channel) in
+   hidden mode, constantly "keep" when mixup is off *)
+Definition mask_at (mt : mixup_type) (dr : draws) (i j k : nat) : option bool :=
+  match mt with
+  | MixNone => Some true
+  | MixFeature => ent2 (draw_mask (rates dr) (unif dr)) i j
+  | MixHidden => ent2 (draw_mask (rates dr) (unif dr)) i k
+  end.
+
+(* lam of every row, as the code computes it in the three modes *)
+Definition mixup_lams (mt : mixup_type) (mi_scores : option (list Q)) (dr : draws) : list Q :=
+  match mt with
+  | MixNone => map (fun _ => 1) (rates dr)
+  | MixHidden => rates dr
+  | MixFeature => match mi_scores with
+                  | Some mi => map (lam_feature mi) (draw_mask (rates dr) (unif dr))
+                  | None => []
+                  end
+  end.
+
+(* mutual-information mass of the columns whose mask entry is "keep" *)
+Definition kept_mass (mi : list Q) (mrow : list bool) : Q := qsum (map2 (fun w m => w * bq m) mi mrow).
 
 (* ---------------------------------------------------------------------------
    Observation helpers for the correspondence check (harness/c19.py). *)
